@@ -28,7 +28,7 @@ pub fn fill(buf: &mut [u8]) {
 pub fn on_fresh_thread<T: Send, F: FnOnce() -> T + Send>(f: F) -> T {
     std::thread::scope(|s| {
         std::thread::Builder::new()
-            .stack_size(64 << 20)
+            .stack_size(16 << 20)
             .spawn_scoped(s, f)
             .expect("spawn")
             .join()
